@@ -40,7 +40,8 @@ class Unsure(Exception):
     """The documentation does not say; the case is left to the model correspondence."""
 
 
-def ref_item(obj, key):
+def ref_item(obj, key, flags=(False, False)):
+    """flags = (string_first_and_last, string_sequences)"""
     if obj is UNDEF:
         return UNDEF
     if isinstance(key, bool):
@@ -66,7 +67,13 @@ def ref_item(obj, key):
             return obj[-1] if obj else UNDEF
         return UNDEF
     if isinstance(obj, str):
-        return len(obj) if key == "size" else UNDEF
+        if key == "size":
+            return len(obj)
+        if flags[0] and key in ("first", "last") and not isinstance(key, int):
+            return (obj[0] if key == "first" else obj[-1]) if obj else UNDEF
+        if flags[1] and isinstance(key, int):
+            return obj[key] if -len(obj) <= key < len(obj) else UNDEF
+        return UNDEF
     return UNDEF
 
 
@@ -152,7 +159,7 @@ class Ref:
         for k in keys:
             if obj is UNDEF and self.uk != "default":
                 raise Unsure("property of a stored undefined under a strict undefined type")
-            obj = ref_item(obj, None if k is UNDEF else k)
+            obj = ref_item(obj, None if k is UNDEF else k, self.case.get("flags", (False, False)))
         return obj
 
     def expr(self, ctx, e):
@@ -222,6 +229,8 @@ class Ref:
                 if isinstance(v, dict):
                     items = list(v.items())
                 elif isinstance(v, (list, tuple)):
+                    items = list(v)
+                elif isinstance(v, str) and self.case.get("flags", (False, False))[1]:
                     items = list(v)
                 elif isinstance(v, str) and v:
                     items = [v]
@@ -583,11 +592,32 @@ def ref_path(root, segs, uk):
     return reference(case)
 
 
+def gen_string_flags(quick):
+    """Strings (and, for contrast, lists and hashes) subscripted and iterated under the four combinations of the
+    string_first_and_last / string_sequences flags: model correspondence + reference resolver."""
+    data = {"s": "hello", "e": "", "l": ["pq", "r"], "d": {"first": "own", "w": "word"}, "i": 1, "m": -1, "k": "first"}
+    segs = [("k", None, "first"), ("k", None, "last"), ("k", None, "size"), ("k", None, "zz"), ("i", 0), ("i", 1), ("i", -1), ("i", 4), ("i", 5), ("i", -5),
+            ("i", -6), ("n", "i", []), ("n", "m", []), ("n", "k", [])]
+    roots = [("s", []), ("e", []), ("l", []), ("l", [("i", 0)]), ("d", []), ("d", [("k", None, "w")])]
+    for fl in (False, True):
+        for sq in (False, True):
+            for root, pre in roots:
+                for sg in segs:
+                    for extra in ([],) if quick else ([], [("k", None, "size")], [("i", 0)]):
+                        for sty in ("dot",) if quick else ("dot", "sq"):
+                            p = ("path", root, styled(pre + [sg] + extra, None, sty))
+                            yield (f"string-flags:{int(fl)}{int(sq)}:{root}{len(pre)}:{seg_class(sg)}",
+                                   L.mk_case([text("["), out(p), text("]")], args=data, flags=(fl, sq)))
+            for it in ("s", "e", "l", "d"):
+                body = [("for", "c", ("ipath", P(it)), [out("c"), text(","), out(P("c", "first")), text(";")], [text("none")])]
+                yield (f"string-flags:{int(fl)}{int(sq)}:for-{it}", L.mk_case(body, args=data, flags=(fl, sq)))
+
+
 # ====================================================================== the check
 
 def string_flag_family(ck: Check) -> None:
     """size / first / last / indexes on STRINGS under the four combinations of the string_first_and_last and string_sequences
-    feature flags (oracle only: the Coq model has the default configuration).  Documented: with string_first_and_last the first /
+    feature flags (direct oracle; gen_string_flags puts the same flags under the model correspondence).  Documented: with string_first_and_last the first /
     last character, otherwise undefined; with string_sequences a string can be indexed; size is always the length; lists are not
     affected.  Sync and async must agree."""
     import liquid
@@ -644,7 +674,10 @@ def run(ck: Check) -> None:  # noqa: PLR0912, PLR0915
         "0..3 of seeded nests in lax and strict mode; paths: every root x every sequence of 0..2 segments out of 28 (quick: a seeded 40% of the 2-segment ones) (names, size/first/"
         "last, indexes incl. negative and out of range, nested variables) exhaustively plus seeded 3-segment paths, each in dotted, "
         "single- and double-quoted bracket notation, under the default and the strict undefined type. Non-trivial = the template binds "
-        "a probed name (nests), has a populated layer (layers) or the path has at least one segment; distinct = distinct case."
+        "a probed name (nests), has a populated layer (layers) or the path has at least one segment; distinct = distinct case. "
+        "string flags: 6 string/list/hash roots x 14 segments (first/last/size/name, indexes in and out of range, nested variables) x "
+        "{nothing, .size, [0]} after it x two notations (quick: nothing after it, dotted), and for loops over a string, an empty string, a list and a hash, under the four "
+        "combinations of string_first_and_last / string_sequences (model correspondence and reference resolver)."
     )
     ck.exhaustive = not ck.quick   # quick samples the depth-3 nesting orders; everything else is enumerated
     ck.trusted_base = [
@@ -691,6 +724,8 @@ def run(ck: Check) -> None:  # noqa: PLR0912, PLR0915
     for sig, case in gen_falsy_shadow():
         one(sig, case)
     string_flag_family(ck)
+    for sig, case in gen_string_flags(ck.quick):
+        one(sig, case)
     for sig, case, pre0, pre1 in gen_interrupts(ck):
         s = one(sig, case)
         if case["mode"] == "lax":
